@@ -1485,18 +1485,22 @@ impl TypeChecker {
                     Type::Function(b_args, b_ret, b_purity),
                 ) => {
                     // TODO: Make sure there is one place this is checked.
-                    match (a_purity, b_purity) {
-                            (Purity::Undefined, _) |
-                            (_, Purity::Undefined) |
-                            (Purity::Pure, Purity::Pure) |
-                            (Purity::Impure, Purity::Impure) => (),
+                    // An undefined purity (a `fn` annotation) takes on the purity of what it
+                    // is unified with, so it cannot later be used as the other kind as well.
+                    let purity = match (a_purity, b_purity) {
+                            (Purity::Undefined, p) |
+                            (p, Purity::Undefined) => p,
+                            (Purity::Pure, Purity::Pure) => Purity::Pure,
+                            (Purity::Impure, Purity::Impure) => Purity::Impure,
                             (_, _) => return err_type_error!(
                                 self,
                                 span,
                                 TypeError::Impurity,
                                 "Cannot use impure function implementations for pure function declarations"
                             ),
-                        }
+                        };
+                    self.find_node_mut(a).ty = Type::Function(a_args.clone(), a_ret, purity.clone());
+                    self.find_node_mut(b).ty = Type::Function(b_args.clone(), b_ret, purity);
                     if a_args.len() != b_args.len() {
                         return err_type_error!(
                             self,
